@@ -1,18 +1,23 @@
-"""C16 - JSON output is valid JSON that states the message's values (Python part; C part in props/c_common)."""
+"""C16 - JSON output is valid JSON that states the message's values (Python to_json/to_dict and the generated C Json functions)."""
 from vlib import harness
-from props import pycommon
+from props import ccommon, pycommon
 
 
 def worker(ctx):
-    if ctx.quick:
-        n_cases, n_values = ctx.per_shard(480), 10
-        ctx.set_budget(240)
-    else:
-        n_cases, n_values = ctx.per_shard(8000), 30
-        ctx.set_budget(2400)
     if ctx.replay is not None:
-        n_cases = 1
-    pycommon.run_cases(ctx, n_cases, n_values, {"json": True})
+        if ctx.replay["witness"].get("config"):
+            return ccommon.run_std_cases(ctx, 1, 12, {"json": True})
+        return pycommon.run_cases(ctx, 1, 10, {"json": True})
+    if ctx.quick:
+        ctx.set_budget(90)
+        pycommon.run_cases(ctx, ctx.per_shard(480), 10, {"json": True})
+        ctx.set_budget(200)
+        ccommon.run_std_cases(ctx, ctx.per_shard(64), 12, {"json": True})
+    else:
+        ctx.set_budget(1500)
+        pycommon.run_cases(ctx, ctx.per_shard(8000), 30, {"json": True})
+        ctx.set_budget(3300)
+        ccommon.run_std_cases(ctx, ctx.per_shard(640), 40, {"json": True})
 
 
 if __name__ == "__main__":
@@ -20,7 +25,9 @@ if __name__ == "__main__":
         "C16", "props.C16", worker,
         rule=("case = generated valid schema compiled and imported; for every message and boundary-biased value to_json() is parsed "
               "with json.loads (object_pairs_hook keeps key order) and compared strictly (true/false vs 1/0 distinguished) with the "
-              "reference JSON value; to_dict() compared the same way; non-trivial/distinct as in C01"),
+              "reference JSON value; to_dict() compared the same way; the generated C Json<Name> functions are run in guard-page and "
+              "ASan+UBSan builds on an exact-fit buffer (size from a measuring call) and their text judged by the same oracle, so Python "
+              "and C are equal as JSON values whenever both pass; non-trivial/distinct as in C01"),
         assumptions=["vlib/ref.py json_value is the specification"],
-        required_counters=["json_texts_parsed", "dicts_compared"],
+        required_counters=["json_texts_parsed", "dicts_compared", "c_json_compared", "builds:gcc-asan-ubsan"],
     )
